@@ -254,20 +254,22 @@ impl JobServer {
                 None
             };
             match from_env {
-                Some(cheat_fds) => cheat_fds,
+                Some(cheat_fds) => (cheat_fds, false),
                 None => {
                     let (a, b) = make_pipe(102).map_err(RedoError::opaque_error)?;
                     env::set_var(JobServer::ENV_CHEATFDS, format!("{},{}", a, b));
-                    (a, b)
+                    ((a, b), true)
                 }
             }
         };
+        let (cheat_fds, own_cheat_pipe) = cheat_fds;
         match token_fds {
             Some(token_fds) => Ok(JobServer {
                 params: Rc::new(ServerParams {
                     token_fds,
                     cheat_fds,
                     top_level: 0,
+                    own_cheat_pipe,
                 }),
                 state: Rc::new(RefCell::new(ServerState::default())),
                 dropped: false,
@@ -286,6 +288,7 @@ impl JobServer {
                         token_fds,
                         cheat_fds,
                         top_level: realmax,
+                        own_cheat_pipe,
                     }),
                     state,
                     dropped: false,
@@ -514,8 +517,19 @@ impl JobServer {
                 debt
             );
             state.destroy_tokens(held);
-            write_tokens(self.params.cheat_fds.1, debt as usize)
-                .map_err(RedoError::opaque_error)?;
+            if self.params.top_level == 0 && self.params.own_cheat_pipe {
+                // We are the outermost redo under somebody else's jobserver
+                // (make): whoever reaps us does not read the cheat pipe, so a
+                // debt recorded there would never be settled and the jobserver
+                // would end up with more tokens than it had.  Take what we
+                // are short of out of the jobserver ourselves.
+                for _ in 0..debt {
+                    take_token(self.params.token_fds.0).map_err(RedoError::opaque_error)?;
+                }
+            } else {
+                write_tokens(self.params.cheat_fds.1, debt as usize)
+                    .map_err(RedoError::opaque_error)?;
+            }
         }
         Ok(())
     }
@@ -535,6 +549,8 @@ struct ServerParams {
     token_fds: (RawFd, RawFd),
     cheat_fds: (RawFd, RawFd),
     top_level: i32,
+    /// We made the cheat pipe ourselves: no redo above us reads it.
+    own_cheat_pipe: bool,
 }
 
 /// Mutable information about a `JobServer`.
@@ -1116,6 +1132,28 @@ fn try_read(fd: RawFd, buf: &mut [u8]) -> nix::Result<Option<usize>> {
 }
 
 extern "C" fn timeout_handler(_: c_int) {}
+
+/// Take one token out of the jobserver pipe, waiting for one if need be.
+fn take_token(fd: RawFd) -> nix::Result<()> {
+    let mut buf = [0u8; 1];
+    loop {
+        match unistd::read(fd, &mut buf) {
+            Ok(0) => return Err(Errno::EPIPE),
+            Ok(_) => return Ok(()),
+            Err(Errno::EINTR) => {}
+            Err(Errno::EAGAIN) => {
+                // a jobserver pipe in non-blocking mode: wait until it is readable
+                let mut rfds = FdSet::new();
+                rfds.insert(fd);
+                match select::select(None, Some(&mut rfds), None, None, None) {
+                    Ok(_) | Err(Errno::EINTR) => {}
+                    Err(e) => return Err(e),
+                }
+            }
+            Err(e) => return Err(e),
+        }
+    }
+}
 
 fn write_tokens(fd: RawFd, n: usize) -> nix::Result<()> {
     let buf: Vec<u8> = iter::repeat(b't').take(n).collect();
